@@ -386,6 +386,9 @@ class Mode(LogMixin):
         self._remove_mode_event_handlers()
         self._remove_mode_devices()
 
+        # handlers of the mode were still registered while it was stopping and may have added delays
+        self.delay.clear()
+
         for callback in self.stop_callbacks:
             callback()
 
